@@ -19,6 +19,7 @@ theorem fsStep_inv {s : GenState ℝ} (h : FsInv s) (o : FsOp ℝ) : FsInv (fsSt
   · rfl
   · rfl
   · exact h
+  · exact h
 
 theorem fsRun_inv {s : GenState ℝ} (h : FsInv s) (ops : List (FsOp ℝ)) : FsInv (fsRun s ops) := by
   induction ops generalizing s with
@@ -115,6 +116,7 @@ theorem ohStep_inv {s : OhState ℝ} (h : OhInv s) (o : OhOp ℝ) : OhInv (ohSte
     · exact { h with area := (ohAreaAccepted_iff v).1 hv }
     · exact h
   | setSmall b => exact { h with }
+  | setShadow b => exact { h with }
 
 theorem ohRun_inv {s : OhState ℝ} (h : OhInv s) (ops : List (OhOp ℝ)) : OhInv (ohRun s ops) := by
   induction ops generalizing s with
@@ -126,6 +128,7 @@ theorem ohStep_rejected (s : OhState ℝ) (o : OhOp ℝ) (e : PyErr) (h : (ohSte
     e = .RuntimeError ∧ (ohStep s o).1 = s := by
   cases o with
   | setSmall b => simp [ohStep] at h
+  | setShadow b => simp [ohStep] at h
   | setFc v => simp only [ohStep] at h ⊢; split_ifs at h ⊢ <;> simp_all
   | setHbs v => simp only [ohStep] at h ⊢; split_ifs at h ⊢ <;> simp_all
   | setHms v => simp only [ohStep] at h ⊢; split_ifs at h ⊢ <;> simp_all
